@@ -46,9 +46,10 @@ Definition empty_index : refindex := RI [] [].
 
 (* ---------- ref_keys of a line ----------------------------------------------------------- *)
 
-(* GraphInline::ref_keys: a Link contributes Key::name(url) (model/graph.rs:372-377, ref_key; the reader has
-   taken the extension off already) — every link, also an
-   external one, and without the directory of the note the line belongs to; an image
+(* GraphInline::ref_keys: a Link contributes Key::name(url) (model/graph.rs ref_key) - the url the graph holds
+   for a note link IS the key the link names from the directory of its note (the reader resolved it:
+   Arena.to_ginline, `Key::from_rel_link_url`; IndexFacts.inline_keys_resolved) - every link, also an
+   external one (its url as text); an image
    contributes the links of its alt text; the label of a link is not searched *)
 Fixpoint inline_ref_keys (i : inline) : list string :=
   match i with
